@@ -196,6 +196,8 @@ def declare(spec, cfg, poly=False, ocp=None, stage=None, with_method=True, paren
             return s if s.numel() == 1 else s[a[1]]
         if op == 'q':
             return b.qs[a[0]]
+        if op == 'vg':
+            return b.vsym[a[0]]          # a whole declared (matrix valued) variable
         if op == 'xg':
             return b.xs[a[0]]            # a whole declared (vector/matrix valued) state inside an expression (element-wise arithmetic)
         return {'t': st.t, 'T': st.T, 't0': st.t0, 'tf': st.tf, 'DT': st.DT, 'DTc': st.DT_control}[op]
@@ -228,6 +230,8 @@ def declare(spec, cfg, poly=False, ocp=None, stage=None, with_method=True, paren
     def mx(e):
         if isinstance(e, (list, tuple)):
             return ca.vcat([mx(x) for x in e])
+        if isinstance(e, E) and e.op == 'vg':
+            return b.vsym[e.a[0]]
         if isinstance(e, E) and e.op == 'xg':
             return b.xs[e.a[0]]          # a whole declared (vector/matrix valued) state
         if isinstance(e, E) and e.op == 'zg':
@@ -254,11 +258,20 @@ def declare(spec, cfg, poly=False, ocp=None, stage=None, with_method=True, paren
             i += r * c
     if spec.nxt is not None:
         i = 0
+        calls = []
         for gi, (r, c) in enumerate(state_groups(spec)):
             rhs = [mx(e) for e in spec.nxt[i:i + r * c]]
             rhs = rhs[0] if r * c == 1 else ca.reshape(ca.vcat(rhs), r, c)
-            st.set_next(b.xs[gi], rhs)
+            calls.append((b.xs[gi], rhs))
             i += r * c
+        order = getattr(spec, 'nxt_order', None)
+        if order == 'reversed':
+            calls = calls[::-1]
+        if order == 'concat-reversed':
+            st.set_next(ca.vcat([ca.vec(x_) for x_, _ in calls[::-1]]), ca.vcat([ca.vec(r_) for _, r_ in calls[::-1]]))
+        else:
+            for x_, r_ in calls:
+                st.set_next(x_, r_)
     for e in spec.quads:
         q = st.state(quad=True)
         st.set_der(q, mx(e))
@@ -306,6 +319,8 @@ def param_value(s, cfg):
     v = s.value
     if isinstance(v, (int, float, Fraction)):
         return float(v)
+    if getattr(s, 'as_numpy', False):
+        return np.array(fnum(v), dtype=float)
     return ca.DM(np.array(fnum(v), dtype=float))
 
 
